@@ -333,7 +333,11 @@ theorem rloopWith_goodL (run : St → Res) (hrun : ∀ s, Good s (run s)) (runEl
   | cons name sub =>
     simp only [hsp] at hf ⊢
     cases hgv : getVar s.c.vars name with
-    | none => simp [hgv, ok, hs] at hf
+    | none =>
+      simp only [hgv] at hf ⊢
+      cases hel : runElse with
+      | none => simp [hel, ok, hs] at hf
+      | some re => simp only [hel] at hf ⊢; exact helse re hel s hs hf
     | some vv =>
       simp only [hgv] at hf ⊢
       exact afterLoop_goodL runElse helse s _ _ rfl
